@@ -235,13 +235,19 @@ impl<'a, T> ChordsV2<'a, T> {
     }
 
     fn next_coord(&self) -> u16 {
-        let ret = self.next_coord.get();
-        let mut new = ret + 1;
-        if new > KEY_MAX + 50 {
-            new = KEY_MAX + 1;
+        loop {
+            let ret = self.next_coord.get();
+            let mut new = ret + 1;
+            if new > KEY_MAX + 50 {
+                new = KEY_MAX + 1;
+            }
+            self.next_coord.set(new);
+            // The coordinates wrap around. Skip one that a still-active chord holds;
+            // otherwise releasing the newer chord also releases the older one.
+            if self.active_chords.iter().all(|ach| ach.coordinate != ret) {
+                return ret;
+            }
         }
-        self.next_coord.set(new);
-        ret
     }
 
     fn drain_inputs(&mut self, drainq: &mut DrainQueue, active_layer: u16) {
